@@ -23,7 +23,7 @@ LIMITS = ["adjacent high+low surrogate pairs written as two code units are outsi
           "histories of at most 20 steps"]
 ASSUMPTIONS = ["reference serializer / signers / threshold model"]
 
-OPS = ["write", "load", "sign_mem", "sign_mem", "gpg_file", "rewrite_loaded", "load", "write_after_variant"]
+OPS = ["write", "load", "sign_mem", "sign_mem", "gpg_file", "gpg_file_wide", "rewrite_loaded", "load", "write_after_variant", "external_replace"]
 
 
 def plan(tier, seed):
@@ -90,6 +90,32 @@ def run_history(case, rec, lib, scratch, real_gpg_fpr=None):
         for step, op in enumerate(case["ops"]):
             before_entries = {k: boundary.fingerprint(v) for k, v in mem["signatures"].items()}
             added = False
+            external = False
+            if op == "gpg_file_wide":
+                # the stored file is valid JSON in another (wider) layout, e.g. hand-edited or written by another tool;
+                # signing it in place must still leave exactly the canonical form of the signed envelope
+                with open(fn, "wb") as f:
+                    f.write(json.dumps(mem, indent=rng.choice([8, 12]), sort_keys=rng.random() < 0.5).encode() + b"\n" * rng.randint(0, 3))
+                on_disk = True
+                op = "gpg_file"
+            if op == "external_replace":
+                # another writer (atomic temp-file + rename, or a plain write) replaces the file with a NEW value
+                # under the same name; the next load must return what the file holds now
+                other = {"signatures": copy.deepcopy(mem["signatures"]), "signed": mem["signed"]}
+                k = rng.choice(keys)
+                boundary.call(lib, S.sign_signable, other, C.PrivateKey.from_bytes(k.seed))
+                other["signatures"]["%064x" % rng.getrandbits(256)] = {"signature": "%0128x" % rng.getrandbits(512)}
+                if rng.random() < 0.5:
+                    with open(fn + ".tmp", "wb") as f:
+                        f.write(canonjson.canon(other))
+                    os.replace(fn + ".tmp", fn)
+                else:
+                    with open(fn, "wb") as f:
+                        f.write(canonjson.canon(other))
+                mem = other
+                on_disk = True
+                external = True
+                op = "load"
             if op == "write_after_variant":
                 # the path currently holds an ==-equal sibling (numeric flavour changed) with the same signature map
                 vs = flavour_variants(mem["signed"], rng)
@@ -168,9 +194,11 @@ def run_history(case, rec, lib, scratch, real_gpg_fpr=None):
                 reloaded = True
                 signed_after_reload = True
             # ---- invariants after the step -------------------------------------------
+            if external:
+                added = True  # verdicts may grow, earlier entries must still be there
             if added:
                 for kk, f0 in before_entries.items():
-                    if op == "sign_mem" and kk == k.hex:
+                    if (op == "sign_mem" or external) and kk == k.hex:
                         continue
                     if op == "gpg_file" and kk == gq:
                         continue
